@@ -46,6 +46,22 @@ type FakeConn struct {
 	captured    []Datagram
 	hook        WriteHook
 	writing     int // WriteTo calls currently inside the hook
+	wrapAddrs   bool
+}
+
+// SimAddr is a net.Addr that is neither *net.UDPAddr nor *net.TCPAddr: what a tunnelled, wrapped or
+// simulated transport hands to the library. The library can only use its String form.
+type SimAddr struct{ U *net.UDPAddr }
+
+func (a SimAddr) Network() string { return "sim" }
+func (a SimAddr) String() string  { return a.U.String() }
+
+// SetWrapAddrs makes ReadFrom report every source as a SimAddr instead of a *net.UDPAddr. WriteTo
+// accepts both; captured datagrams always carry the plain UDP address.
+func (c *FakeConn) SetWrapAddrs(on bool) {
+	c.mu.Lock()
+	c.wrapAddrs = on
+	c.mu.Unlock()
 }
 
 func NewConn(local *net.UDPAddr) *FakeConn {
@@ -67,7 +83,11 @@ func (c *FakeConn) Inject(b []byte, from *net.UDPAddr) {
 	addr := &net.UDPAddr{IP: append(net.IP(nil), from.IP...), Port: from.Port, Zone: from.Zone}
 	c.mu.Lock()
 	if !c.closed {
-		c.queue = append(c.queue, inPkt{cp, addr})
+		if c.wrapAddrs {
+			c.queue = append(c.queue, inPkt{cp, SimAddr{addr}})
+		} else {
+			c.queue = append(c.queue, inPkt{cp, addr})
+		}
 		c.injected++
 	}
 	c.mu.Unlock()
@@ -112,6 +132,9 @@ var ErrShortWrite = errors.New("simnet: short write")
 
 func (c *FakeConn) WriteTo(b []byte, addr net.Addr) (int, error) {
 	ua, ok := addr.(*net.UDPAddr)
+	if sa, isSim := addr.(SimAddr); isSim {
+		ua, ok = sa.U, true
+	}
 	if !ok {
 		return 0, errors.New("simnet: not a UDP address")
 	}
